@@ -8,6 +8,8 @@ with a role; the task tagger of the driver's loop logs every task created while 
 events of coq/theories/RecvLTS.v (fail-closed: an unexpected raw sequence becomes an `EBad` marker that the
 caller reports as a rejected trace)."""
 import asyncio
+import asyncio.queues as _aio_queues
+import asyncio.tasks as _aio_tasks
 import types
 
 
@@ -163,6 +165,9 @@ def install(rmod, log, ident):
     patchall.replace_everywhere(asyncio, shim, prefix=pkg)
     patchall.replace_everywhere(asyncio.Queue, LQueue, prefix=pkg)
     patchall.replace_everywhere(asyncio.wait, wait, prefix=pkg)
+    # ... and the sub-modules asyncio re-exports them from, bound under any name (import asyncio.tasks as aio_tasks)
+    patchall.patch_attr(_aio_tasks, "wait", wait, prefix=pkg)
+    patchall.patch_attr(_aio_queues, "Queue", LQueue, prefix=pkg)
     return shim
 
 
